@@ -47,7 +47,7 @@ def _close():
 
 def ask(*parts):
     p = _server()
-    STATS["c_writer_requests" if str(parts[0]).endswith("write") else "c_reader_requests"] += 1
+    STATS["c_writer_requests" if str(parts[0]).endswith(("write", "ops")) else "c_reader_requests"] += 1
     STATS["c_answers_compared"] += max(1, len(parts) - 2) if str(parts[0]).endswith("check") else 1
     line = " ".join(str(x) for x in parts) + "\n"
     try:
@@ -197,7 +197,18 @@ def cbf_c06(cfg, st, keys, hf, bad):
     got = [int(x) for x in ans.split()]
     if got != want:
         bad("C06", "cbf.c_reader_agrees", {"keys": [repr(k) for k in probes], "c": got, "py": want})
-    if all(c_key(k) for k in keys):
+    if cfg.get("sat"):
+        # histories that reach the limit: the writer replays the operations with the documented saturation rules
+        if all(c_key(k) for k in keys):
+            ops = [("+" if kind == "add" else "-") + hx(keys[i]) + ":" + str(n) for kind, i, n in m["ops"]]
+            w = ask("cbloom-ops", f.estimated_elements, repr(cfg["p"]), *ops)
+            if w[0] != "ok":
+                bad("C06", "cbf.c_writer_runs", {"reply": w})
+            else:
+                half, hexs = w[1].split()
+                if half != "1" and bytes.fromhex(hexs) != blob:
+                    bad("C06", "cbf.c_writer_same_file_saturating", {"c": hexs[:200], "py": blob.hex()[:200], "ops": m["ops"]})
+    elif all(c_key(k) for k in keys):
         args = []
         for i, k in enumerate(keys):
             if m["true"][i]:
